@@ -174,8 +174,11 @@ impl DocumentBuilder<'_> {
             // per <https://spec.graphql.org/October2021/#sec-Single-root-field>.
             // We generate exactly one field to satisfy that condition. The 0-index
             // is sometimes used to create an alias for the field.
+            self.selection_set_depth += 1;
+            let field = self.field(0);
+            self.selection_set_depth -= 1;
             SelectionSet {
-                selections: vec![Selection::Field(self.field(0)?)],
+                selections: vec![Selection::Field(field?)],
             }
         } else {
             self.selection_set()?
